@@ -53,7 +53,7 @@ theorem raw_lossy : (v : PV) → RawPlain v = true → ∃ j, rawDump v = .ok j 
   | .action _ _ _ _ _ _ _, h => by simp [RawPlain] at h
   | .partialFn, h => by simp [RawPlain] at h
   | .regex _ _, h => by simp [RawPlain] at h
-  | .cmp, h => by simp [RawPlain] at h
+  | .cmp _ _, h => by simp [RawPlain] at h
   | .other _, h => by simp [RawPlain] at h
 theorem raw_lossy_list : (xs : List PV) → RawPlainList xs = true → ∃ js, rawDumpList xs = .ok js ∧ decodeList js = .ok (rawNormList xs)
   | [], _ => ⟨[], by simp [rawDumpList], by simp [decodeList, rawNormList]⟩
@@ -166,12 +166,19 @@ theorem lossy : (v : PV) → Decodable v = true → ∃ j, encode v = .ok j ∧ 
   | .action uid name fu st ctx args sc, h => by
     simp only [Decodable, Bool.and_eq_true] at h
     obtain ⟨⟨hc, ha⟩, hs⟩ := h
-    obtain ⟨jc, c1, c2⟩ := raw_lossy ctx hc
-    obtain ⟨ja, a1, a2⟩ := raw_lossy args ha
+    obtain ⟨jc, c1, c2⟩ := lossy ctx hc
+    obtain ⟨ja, a1, a2⟩ := lossy args ha
     refine ⟨_, by simp [encode, c1, a1, bind, Except.bind, pure, Except.pure]; rfl, ?_⟩
     cases fu <;>
     simp [wrap, decode, norm, typeTag, decodeAtValue, decodePlain, optStrJ, c2, a2, lookup_action, hs, bind, Except.bind, pure, Except.pure]
-  | .cmp, h => by simp [Decodable] at h
+  | .cmp op v, h => by
+    simp only [Decodable, Bool.and_eq_true] at h
+    obtain ⟨hop, hv⟩ := h
+    have hop' : op ∈ NemoVerif.Generated.C11.comparisonOps := by simpa using hop
+    have := builtin_tags_not_classes
+    cases v <;> simp [numJ] at hv <;>
+      exact ⟨_, by simp [encode, numJ, hop'] <;> rfl, by
+        simp [decode, norm, typeTag, strField, fieldJ, numOfJ, hop', this, bind, Except.bind, pure, Except.pure]⟩
   | .other _, h => by simp [Decodable] at h
 theorem lossy_list : (xs : List PV) → DecodableList xs = true → ∃ js, encodeList xs = .ok js ∧ decodeList js = .ok (normList xs)
   | [], _ => ⟨[], by simp [encodeList], by simp [decodeList, normList]⟩
@@ -224,7 +231,7 @@ theorem rawNorm_id : (v : PV) → RawOk v = true → rawNorm v = v
   | .list xs, h => by simp only [RawOk] at h; simp [rawNorm, rawNormList_id xs h]
   | .dict kvs, h => by simp only [RawOk] at h; simp [rawNorm, rawNormKvs_id kvs h]
   | .tuple _, h | .set _, h | .deque _, h | .data _ _, h | .railsConfig _, h | .specType _, h | .enum _ _, h
-  | .datetime _, h | .action _ _ _ _ _ _ _, h | .partialFn, h | .regex _ _, h | .cmp, h | .other _, h => by
+  | .datetime _, h | .action _ _ _ _ _ _ _, h | .partialFn, h | .regex _ _, h | .cmp _ _, h | .other _, h => by
     simp [RawOk] at h
 theorem rawNormList_id : (xs : List PV) → RawOkList xs = true → rawNormList xs = xs
   | [], _ => rfl
@@ -254,8 +261,9 @@ theorem norm_id : (v : PV) → Encodable v = true → norm v = v
     simp [norm, normKvs_id kvs h.1.1.1.1]
   | .action _ _ _ _ ctx args _, h => by
     simp only [Encodable, Bool.and_eq_true] at h
-    simp [norm, rawNorm_id ctx h.1.1, rawNorm_id args h.1.2]
-  | .partialFn, h | .cmp, h | .other _, h => by simp [Encodable] at h
+    simp [norm, norm_id ctx h.1.1, norm_id args h.1.2]
+  | .cmp _ _, _ => by simp [norm]
+  | .partialFn, h | .other _, h => by simp [Encodable] at h
 theorem normList_id : (xs : List PV) → EncodableList xs = true → normList xs = xs
   | [], _ => rfl
   | x :: xs, h => by
